@@ -107,6 +107,7 @@ type advEvent struct {
 	Value bool   `json:"value,omitempty"` // flip
 	Err   string `json:"err,omitempty"`   // readerr: timeout syscall perm other
 	N     int    `json:"n,omitempty"`     // repetitions (timeouts, burst size)
+	Crowd bool   `json:"crowd,omitempty"` // rs burst: every message of the burst from another host (same kind of address)
 }
 
 type latRule struct {
@@ -371,6 +372,13 @@ func runAdvertiser(t *testing.T, sc advScenario, hook func(w *simWorld, a *Adver
 					e2 := ev
 					if ev.Kind == "rs" {
 						e2.Msg = "rs"
+					}
+					from := from
+					if ev.Crowd && j > 0 && !from.IsUnspecified() {
+						b := from.As16()
+						b[8], b[9], b[10], b[11] = byte(j>>24), byte(j>>16), byte(j>>8), byte(j)
+						from = netip.AddrFrom16(b).WithZone(from.Zone())
+						e2.From = from.WithZone("").String()
 					}
 					c.deliver(simIn{Msg: vkMsg(e2), HopLimit: hop, From: from})
 					res.Delivered = append(res.Delivered, advDelivered{Ev: e2, At: w.now(), Conn: c.id})
